@@ -245,6 +245,12 @@ pub fn main_authz(args: &[String]) -> anyhow::Result<()> {
                         extra.generate_key();
                         app.naming_addr.send(NamingCmd::Delete(extra)).await??;
                         app.naming_addr.send(NamingCmd::RemoveService(rnacos::naming::model::ServiceKey::new(&nsid, "DEFAULT_GROUP", "svc-new"))).await.ok();
+                        // one MCP tool spec per namespace (and nothing else under the group used by the write endpoints)
+                        use rnacos::mcp::model::actor_model::McpManagerRaftReq;
+                        use rnacos::mcp::model::tools::{ToolKey, ToolSpecParam};
+                        let grp = Arc::new(format!("g-MARK-{}", label));
+                        app.mcp_manager.send(McpManagerRaftReq::UpdateToolSpec(ToolSpecParam { namespace: Arc::new(nsid.clone()), group: grp.clone(), tool_name: Arc::new("t1".to_string()), parameters: Default::default(), version: 1, update_time: 1, op_user: None })).await??;
+                        app.mcp_manager.send(McpManagerRaftReq::RemoveToolSpec(ToolKey::new(Arc::new(nsid.clone()), grp.clone(), Arc::new("tnew".to_string())))).await.ok();
                     }
                     Ok::<(), anyhow::Error>(())
                 };
@@ -261,7 +267,18 @@ pub fn main_authz(args: &[String]) -> anyhow::Result<()> {
                         ns.insert(k, v["name"].clone());
                     }
                     let inst: Vec<Value> = n["services"].as_array().cloned().unwrap_or_default().iter().map(|s| json!([s["namespace"], s["service"], s["instances"].as_array().map(|a| a.iter().map(|i| json!([i["ip"], i["port"], i["enabled"], i["weight"]])).collect::<Vec<_>>())])).collect();
-                    Ok::<Value, anyhow::Error>(json!({"cfg": cfg, "ns": ns, "inst": inst}))
+                    // MCP tool specs of the three namespaces
+                    let mut tools = vec![];
+                    for nsid in ["public", "nsA", "nsB"] {
+                        use rnacos::mcp::model::actor_model::{McpManagerReq, McpManagerResult, McpToolSpecQueryParam};
+                        let q = McpToolSpecQueryParam { offset: 0, limit: 1000, namespace_id: Some(nsid.to_string()), group_filter: None, tool_name_filter: None };
+                        if let Ok(Ok(McpManagerResult::ToolSpecPageInfo(_, list))) = app.mcp_manager.send(McpManagerReq::QueryToolSpec(q)).await {
+                            for t in list {
+                                tools.push(json!([t.namespace.as_str(), t.group.as_str(), t.tool_name.as_str()]));
+                            }
+                        }
+                    }
+                    Ok::<Value, anyhow::Error>(json!({"cfg": cfg, "ns": ns, "inst": inst, "tools": tools}))
                 };
                 let base = digest(app.clone()).await?;
                 let svc = test::init_service(App::new().app_data(web::Data::new(app.clone())).app_data(web::Data::new(app.config_addr.clone())).app_data(web::Data::new(app.naming_addr.clone())).app_data(web::Data::new(app.bi_stream_manage.clone())).wrap(CheckLogin::new(app.clone())).configure(console_config)).await;
